@@ -175,6 +175,12 @@ def rule_R14_2(ctx):
                         src_call = ops.try_chain_source(g, cc.args[0])
                     desc = "clone of the value evaluated by %s" % (src_call.res if src_call else base[0],)
                     ok_src = True if (src_call is None or src_call.res in evs) else False
+            elif cc is not None:
+                # the evaluated container itself, moved instead of cloned
+                src_call = ops.try_chain_source(g, src)
+                if src_call is not None and src_call.res in evs:
+                    desc = "the value evaluated by %s (moved)" % src_call.res
+                    ok_src = True
         r.inst("%s: source = %s" % (g.path, desc))
         if in_ev and ok_src:
             r.ok()
